@@ -143,7 +143,7 @@ func RunStall(sc *Scn) (evs []trace.Ev, note string) {
 // and well beyond it, each kind of consumer.
 func StallScenarios(thorough bool) []*Scn {
 	var out []*Scn
-	counts := []int{1, 2, 3, 4, 20}
+	counts := []int{1, 2, 3, 4, 20, 100}
 	if thorough {
 		counts = []int{1, 2, 3, 4, 5, 8, 20, 100, 1000}
 	}
